@@ -9,7 +9,7 @@
 (* feeds the same bytes to ProguardRecord::try_parse and, embedded in a    *)
 (* file, to ProguardMapping::iter.                                         *)
 (***************************************************************************)
-EXTENDS Integers, Sequences, TLC, Json, MappingGrammar
+EXTENDS Integers, Sequences, FiniteSets, TLC, Json, MappingGrammar
 
 CONSTANTS Tier, Emit
 
@@ -75,15 +75,24 @@ Want(x) == Expected(x.ast, x.mal, x.term)
 AgreesAlone(x) == P!TryParse(Line(x)) = Want(x)
 \* ... and inside a file (only when the line is terminated)
 Before == B("x.Y -> z:") \o <<10>>
-After == B("    int q -> r")
+\* what follows the line in the file: a field (no delimiter a runaway scan could stop at), a method
+\* with line numbers (colons, parentheses, arrow) or a class line
+Afters == <<B("    int q -> r"), B("    1:2:void m(int):3:4 -> n"), B("p.Q -> r:")>>
+AfterRecs == <<P!Field(B("int"), B("q"), B("r")),
+               P!Method(B("void"), B("m"), B("n"), B("int"), <<>>,
+                        <<P!LineMapping(<<1>>, <<2>>, <<<<3>>>>, <<<<4>>>>)>>),
+               P!Class(B("p.Q"), B("r"))>>
+\* malformed lines are followed by all three continuations, well-formed ones by the first
+EmbedSet(x) == IF x.mal = "none" THEN {1} ELSE {1, 2, 3}
 AgreesEmbedded(x) ==
   x.term # <<>> =>
-    P!Items(Before \o Line(x) \o After)
-      = <<P!Class(B("x.Y"), B("z")), Want(x), P!Field(B("int"), B("q"), B("r"))>>
+    \A a \in EmbedSet(x) :
+      P!Items(Before \o Line(x) \o Afters[a]) = <<P!Class(B("x.Y"), B("z")), Want(x), AfterRecs[a]>>
 
 EmitCase(x) ==
   Emit => PrintT("CASE " \o ToJson([line |-> Line(x), want |-> Want(x), mal |-> x.mal,
-                                    embed |-> IF x.term = <<>> THEN <<>> ELSE <<Before \o Line(x) \o After>>]))
+                                    embed |-> IF x.term = <<>> THEN <<>>
+                                              ELSE [a \in 1..Cardinality(EmbedSet(x)) |-> Before \o Line(x) \o Afters[a]]]))
 
 Inv == phase = 2 => AgreesAlone(c) /\ AgreesEmbedded(c) /\ EmitCase(c)
 =============================================================================
